@@ -265,6 +265,7 @@ class C08(Check):
                     if g - {marker} != want:
                         out.fail("C08.intrinsic", "%s: in-language value %s, API/model value %s" % (key, sorted(g - {marker})[:16], sorted(want)[:16]), "intrinsic")
             res0 = uni0.res
+            self._yielded = []
             for k, t in types.items():
                 d = uni0.defs[k]
                 secs = [(0, t.request_type), (1, t.response_type)] if T.is_service(d) else [(0, t)]
@@ -314,6 +315,20 @@ class C08(Check):
                     out.shapes.append(digest([sorted(x for x in feats if not x.startswith("n:")), exhaustive]))
                     if feats & {"var", "subbyte", "nested"}:
                         out.nontrivial = True
+            # history: offset objects YIELDED by the library for primitive fields (unaligned in general) are handed back as the base
+            # offset of other composites, as an unrolling code generator does
+            ylist, self._yielded = list(self._yielded), None
+            secs_all = []
+            for k, t in types.items():
+                d = uni0.defs[k]
+                for si, real in ([(0, t.request_type), (1, t.response_type)] if T.is_service(d) else [(0, t)]):
+                    secs_all.append((k, si, real))
+            for yi, (off, node, src) in enumerate(ylist[:12]):
+                if not secs_all or node.work() > 2000:
+                    continue
+                k, si, real = secs_all[(yi * 5 + len(src)) % len(secs_all)]
+                self._check_offsets(out, pydsdl, res0, res0.sec(k, si), real, node, off, "%s[%d] base = the offset object yielded for %s" % (k, si, src), 0, messages=False)
+                out.stats["yielded_offsets_reused_as_base"] += 1
             out.obs.append([len(types), out.stats["fields_checked"]])
         finally:
             w.close()
@@ -360,6 +375,8 @@ class C08(Check):
             out.fail("C08.base", "%s: fields yielded %s, model %s" % (where, [f.name for f, _o in got], [n for n, _t, _o in model]), "order")
             return
         for (f, off), (n, t, node) in zip(got, model):
+            if depth == 0 and t[0] not in ("ref", "arr", "var") and getattr(self, "_yielded", None) is not None and len(self._yielded) < 40:
+                self._yielded.append((off, node, where + "." + (n or "<pad>")))
             bad = same_set(off, node)
             if bad:
                 out.fail("C08.base" if len(base_node.expand()) > 1 or base_node.lo else "C08.sound", "%s: offset of field %r: %s" % (where, n, bad), "offset-set")
